@@ -51,6 +51,10 @@ def run(ctx):
             r3(ctx, modname, cases, mr)
         r4(ctx, modname)
         r5(ctx, modname)
+    from . import c05
+    from .common import reuse
+
+    reuse(ctx, "C09.R6", [c05.r1_ability], "the ability records the model is built from are decoded as the vendor defines (group bitmap, start/count fields)")
 
 
 def _pattern_classes(ctx, m, p):
